@@ -321,6 +321,13 @@ func (vc *VC) enterLoop(li *loopInfo, b *ssa.BasicBlock, preds []*ssa.BasicBlock
 	// a fresh reach for "some iteration"
 	r := vc.declare(fmt.Sprintf("reach_b%d_iter", b.Index), "Bool")
 	vc.reach[b.Index] = r
+	// an iteration only happens after the loop was entered: the entry path condition
+	// (over values that dominate the header) holds in every iteration
+	var ecs []string
+	for _, p := range preds {
+		ecs = append(ecs, vc.edgeCond(p, b))
+	}
+	vc.addFact("def", imp(r, or(ecs...)))
 	for _, ins := range b.Instrs {
 		phi, ok := ins.(*ssa.Phi)
 		if !ok {
@@ -330,6 +337,11 @@ func (vc *VC) enterLoop(li *loopInfo, b *ssa.BasicBlock, preds []*ssa.BasicBlock
 	}
 	li.hdrSt = st.clone()
 	vc.curState = st
+	// 2b. automatic counter bounds: a header phi that only moves in one direction
+	vc.findAutoInv(li)
+	for _, ai := range li.auto {
+		vc.assume(r, vc.autoInvTerm(ai, vc.val(ai.phi).S))
+	}
 	// 3. assume invariant
 	env := vc.loopEnv(li, nil, st)
 	if li.lc != nil {
@@ -393,6 +405,25 @@ func (vc *VC) checkInvariant(li *loopInfo, from *ssa.BasicBlock, st *State, whic
 	vc.cur, vc.curIdx = from, len(from.Instrs)
 	defer func() { vc.cur, vc.curIdx = save, saveIdx; vc.curState = saveSt }()
 	env := vc.loopEnv(li, from, st)
+	if which == "entry" {
+		saveR := vc.reach[from.Index]
+		vc.reach[from.Index] = g
+		vc.applyHints(li.ord, "", env)
+		vc.reach[from.Index] = saveR
+	}
+	if which == "back" {
+		for _, ai := range li.auto {
+			for i, p := range li.header.Preds {
+				if p == from {
+					nm := "auto-bound-"
+					if ai.upper != "" {
+						nm = "auto-upper-"
+					}
+					vc.obligeG("loop-back", fmt.Sprintf("loop%d:%s%s", li.ord, nm, ai.phi.Comment), g, vc.autoInvTerm(ai, vc.val(ai.phi.Edges[i]).S), vc.loopPos(li))
+				}
+			}
+		}
+	}
 	if li.lc == nil {
 		return
 	}
@@ -436,7 +467,7 @@ func (vc *VC) instr(ins ssa.Instruction, st *State) {
 		vc.zeroInit(st, tv.S, et, true)
 	case *ssa.FieldAddr:
 		base := vc.val(x.X).S
-		vc.oblige("nil-deref", "", not(eq(base, "lnil")), x.Pos())
+		vc.nilObl(x.X, not(eq(base, "lnil")), x.Pos())
 		vc.setVal(x, sx("lfld", base, fmt.Sprint(x.Field)))
 	case *ssa.Field:
 		vc.setVal(x, vc.structField(x.X.Type(), vc.val(x.X).S, x.Field))
@@ -522,7 +553,87 @@ func (vc *VC) nilCheckAddr(addr ssa.Value, pos token.Pos) {
 	case *ssa.FieldAddr, *ssa.IndexAddr, *ssa.Alloc, *ssa.Global:
 		return // already checked at address formation / never nil
 	}
-	vc.oblige("nil-deref", "", not(eq(vc.val(addr).S, "lnil")), pos)
+	vc.nilObl(addr, not(eq(vc.val(addr).S, "lnil")), pos)
+}
+
+// nilObl: a nil-dereference obligation, or — for "wiring" pointers (parameters,
+// receivers, captured variables, pointer fields, channel payloads, results of
+// constructors) under the trust-wiring rule — an assumption.
+func (vc *VC) nilObl(p ssa.Value, cond string, pos token.Pos) {
+	if vc.trustWiring() && vc.wiringNonNil(p, 0) {
+		vc.assumeNote("wiring pointers (parameters, receivers, captured variables, pointer-typed struct fields, channel payloads) are assumed non-nil; nil checks are proved only for pointers that come from map lookups, type switches, calls and nil-able merges")
+		vc.assume(vc.guard(), cond)
+		return
+	}
+	vc.oblige("nil-deref", "", cond, pos)
+}
+
+func (vc *VC) trustWiring() bool {
+	return vc.fc == nil || !vc.fc.Flags["strict-nil"]
+}
+
+func (vc *VC) wiringNonNil(p ssa.Value, depth int) bool {
+	if depth > 6 {
+		return false
+	}
+	switch x := p.(type) {
+	case *ssa.Parameter, *ssa.FreeVar, *ssa.Global, *ssa.Alloc, *ssa.FieldAddr, *ssa.IndexAddr, *ssa.MakeClosure, *ssa.MakeMap, *ssa.MakeChan, *ssa.Function:
+		return true
+	case *ssa.UnOp:
+		if x.Op == token.MUL {
+			switch x.X.(type) {
+			case *ssa.FieldAddr, *ssa.FreeVar, *ssa.Global:
+				return true
+			case *ssa.Alloc:
+				return false
+			}
+			return false
+		}
+		return x.Op == token.ARROW
+	case *ssa.Extract:
+		switch t := x.Tuple.(type) {
+		case *ssa.Select:
+			return true
+		case *ssa.UnOp:
+			return t.Op == token.ARROW
+		case *ssa.TypeAssert:
+			return x.Index == 0
+		case *ssa.Call:
+			if fn := t.Common().StaticCallee(); fn != nil {
+				return vc.prog.returnsNonNil(fn, x.Index, 0)
+			}
+		}
+		return false
+	case *ssa.TypeAssert:
+		return !x.CommaOk
+	case *ssa.Phi:
+		for _, e := range x.Edges {
+			if e == p {
+				continue
+			}
+			if !vc.wiringNonNil(e, depth+1) {
+				return false
+			}
+		}
+		return true
+	case *ssa.Call:
+		if fn := x.Common().StaticCallee(); fn != nil {
+			if vc.isLeafGetter(fn) {
+				for _, ins := range fn.Blocks[0].Instrs {
+					if r, ok := ins.(*ssa.Return); ok && len(r.Results) == 1 {
+						return vc.wiringNonNil(r.Results[0], depth+1)
+					}
+				}
+			}
+			return vc.prog.returnsNonNil(fn, 0, 0)
+		}
+		return false
+	case *ssa.ChangeType:
+		return vc.wiringNonNil(x.X, depth+1)
+	case *ssa.Field:
+		return true
+	}
+	return false
 }
 
 func (vc *VC) intInfoOf(t types.Type) intInfo {
@@ -783,14 +894,10 @@ func (vc *VC) convert(x *ssa.Convert, st *State) {
 	case fok && tok:
 		vc.defVal(x, vc.ar.conv(fi, ti, a.S))
 	case isString(to) && isByteSlice(from):
-		// string(b): fresh string with the slice's contents
-		r := vc.freshConst("str", "Str")
-		vc.addFact("def", eq(sx("slen_", r), sx("slen", a.S)))
-		k := "k!s"
-		rd := vc.heapRead(st, elemKey(types.Typ[types.Byte]), types.Typ[types.Byte], sx("lelem", sx("sbase", a.S), vc.ar.ixadd(sx("soff", a.S), k)))
-		vc.assume(vc.guard(), fmt.Sprintf("(forall ((%s IX)) (! (=> %s (= (sat_ %s %s) %s)) :pattern ((sat_ %s %s))))",
-			k, and(vc.ar.le(ixInfo, vc.ar.ix(0), k), vc.ar.lt(ixInfo, k, sx("slen", a.S))), r, k, rd, r, k))
-		vc.setVal(x, r)
+		// string(b): the string of the slice's current contents (same term as the spec-level str(b))
+		bt := types.Typ[types.Byte]
+		vc.needStrOf()
+		vc.setVal(x, sx("strof", vc.heapGet(st, elemKey(bt), bt), a.S))
 	case isByteSlice(to) && isString(from):
 		// []byte(s): fresh slice
 		loc := vc.alloc(st)
@@ -900,7 +1007,7 @@ func (vc *VC) indexAddr(x *ssa.IndexAddr) {
 		vc.setVal(x, sx("lelem", sx("sbase", a.S), ar.ixadd(sx("soff", a.S), idx)))
 	case *types.Pointer:
 		arr := u.Elem().Underlying().(*types.Array)
-		vc.oblige("nil-deref", "", not(eq(a.S, "lnil")), x.Pos())
+		vc.nilObl(x.X, not(eq(a.S, "lnil")), x.Pos())
 		vc.oblige("index", "", and(ar.le(ixInfo, ar.ix(0), idx), ar.lt(ixInfo, idx, ar.ix(arr.Len()))), x.Pos())
 		vc.setVal(x, sx("lelem", a.S, idx))
 	default:
@@ -969,7 +1076,7 @@ func (vc *VC) slice(x *ssa.Slice, st *State) {
 		lo := opt(x.Low, z)
 		hi := opt(x.High, n)
 		mx := opt(x.Max, n)
-		vc.oblige("nil-deref", "", not(eq(a.S, "lnil")), x.Pos())
+		vc.nilObl(x.X, not(eq(a.S, "lnil")), x.Pos())
 		vc.oblige("slice-bounds", "", and(le(z, lo), le(lo, hi), le(hi, mx), le(mx, n)), x.Pos())
 		vc.defVal(x, sx("mkslice", a.S, lo, ar.ixsub(hi, lo), ar.ixsub(mx, lo)))
 	default:
@@ -1021,4 +1128,146 @@ func (vc *VC) ret(x *ssa.Return, st *State) {
 	vc.frameCheck(st, x.Pos())
 	o := vc.oblige("cover", "return-reachable", "false", x.Pos())
 	o.Expect = "sat"
+}
+
+type autoInv struct {
+	phi    *ssa.Phi
+	entry  string
+	lower  bool   // entry <= phi (counter increases) ; else phi <= entry
+	upper  string // if set: phi <= upper (or phi < upper when strict), or phi == entry
+	strict bool
+}
+
+func (vc *VC) autoInvTerm(ai autoInv, v string) string {
+	ii, _ := basicInt(ai.phi.Type())
+	if ai.upper != "" {
+		if ai.strict {
+			return or(vc.ar.lt(ii, v, ai.upper), eq(v, ai.entry))
+		}
+		return or(vc.ar.le(ii, v, ai.upper), eq(v, ai.entry))
+	}
+	if ai.lower {
+		return vc.ar.le(ii, ai.entry, v)
+	}
+	return vc.ar.le(ii, v, ai.entry)
+}
+
+// findAutoInv: phis of the header whose back-edge values are phi+c (c>0) or phi-c.
+func (vc *VC) findAutoInv(li *loopInfo) {
+	li.auto = nil
+	for _, ins := range li.header.Instrs {
+		phi, ok := ins.(*ssa.Phi)
+		if !ok {
+			break
+		}
+		if _, isInt := basicInt(phi.Type()); !isInt {
+			continue
+		}
+		var entry ssa.Value
+		nEntry := 0
+		dir := 0
+		good := true
+		for i, p := range li.header.Preds {
+			e := phi.Edges[i]
+			if !vc.isBackEdge(p, li.header) {
+				entry = e
+				nEntry++
+				continue
+			}
+			d := stepDir(phi, e)
+			if d == 0 || (dir != 0 && d != dir) {
+				good = false
+			}
+			dir = d
+		}
+		if !good || nEntry != 1 || dir == 0 {
+			continue
+		}
+		if _, known := vc.vals[entry]; !known {
+			if _, isConst := entry.(*ssa.Const); !isConst {
+				continue
+			}
+		}
+		li.auto = append(li.auto, autoInv{phi: phi, entry: vc.val(entry).S, lower: dir > 0})
+		// upper bound from the header's own exit test  X < N  (X = phi or phi+1, N loop-invariant)
+		if dir > 0 {
+			if iff, ok := li.header.Instrs[len(li.header.Instrs)-1].(*ssa.If); ok {
+				if cmp, ok := iff.Cond.(*ssa.BinOp); ok && cmp.Op == token.LSS && li.body[li.header.Succs[0].Index] {
+					nOK := false
+					switch n := cmp.Y.(type) {
+					case *ssa.Const, *ssa.Parameter:
+						nOK = true
+					case ssa.Instruction:
+						nOK = !li.body[n.Block().Index]
+					}
+					unit := true
+					for i, p := range li.header.Preds {
+						if vc.isBackEdge(p, li.header) {
+							b, ok := phi.Edges[i].(*ssa.BinOp)
+							if !ok || b.Op != token.ADD {
+								unit = false
+								continue
+							}
+							c, isC := b.Y.(*ssa.Const)
+							if !isC {
+								unit = false
+								continue
+							}
+							if v, ok := constInt64(c); !ok || v != 1 {
+								unit = false
+							}
+						}
+					}
+					if nOK && unit {
+						if cmp.X == phi {
+							li.auto = append(li.auto, autoInv{phi: phi, entry: vc.val(entry).S, upper: vc.val(cmp.Y).S, strict: false})
+						} else if b, ok := cmp.X.(*ssa.BinOp); ok && b.Op == token.ADD && b.X == phi && b.Block() == li.header {
+							if c, isC := b.Y.(*ssa.Const); isC {
+								if v, ok := constInt64(c); ok && v == 1 {
+									li.auto = append(li.auto, autoInv{phi: phi, entry: vc.val(entry).S, upper: vc.val(cmp.Y).S, strict: true})
+								}
+							}
+						}
+					}
+				}
+			}
+		}
+	}
+}
+
+// stepDir: +1 if e == phi + c (c>0 const), -1 if e == phi - c, 0 otherwise.
+func stepDir(phi *ssa.Phi, e ssa.Value) int {
+	b, ok := e.(*ssa.BinOp)
+	if !ok {
+		return 0
+	}
+	cst := func(v ssa.Value) (int64, bool) {
+		c, ok := v.(*ssa.Const)
+		if !ok {
+			return 0, false
+		}
+		return constInt64(c)
+	}
+	switch b.Op {
+	case token.ADD:
+		if b.X == phi {
+			if c, ok := cst(b.Y); ok && c > 0 {
+				return 1
+			} else if ok && c < 0 {
+				return -1
+			}
+		}
+		if b.Y == phi {
+			if c, ok := cst(b.X); ok && c > 0 {
+				return 1
+			}
+		}
+	case token.SUB:
+		if b.X == phi {
+			if c, ok := cst(b.Y); ok && c > 0 {
+				return -1
+			}
+		}
+	}
+	return 0
 }
